@@ -164,6 +164,36 @@ pub fn case_main(id: &str, tier: Tier, key: &str, rundir: &str) -> i32 {
     0
 }
 
+/// `l21mc aux <id> <args..>`: run a driver-defined auxiliary computation in this (fresh) process and print
+/// its one-line result on the protocol stream. Used for cross-process determinism checks.
+pub fn aux_main(id: &str, args: &[String]) -> i32 {
+    let mut proto = detach_stdio("/dev/null");
+    install_panic_hook();
+    let out = props::aux(id, args);
+    writeln!(proto, "A\t{}", out.replace('\n', " ")).ok();
+    0
+}
+
+/// Spawn a fresh process running `aux <id> <args..>` and return its one-line result.
+pub fn run_aux(id: &str, args: &[String]) -> Result<String, String> {
+    let mut cmd = Command::new(self_exe());
+    cmd.arg("aux").arg(id).args(args).stdin(Stdio::null()).stdout(Stdio::piped()).stderr(Stdio::null()).env("RUST_BACKTRACE", "0");
+    unsafe {
+        cmd.pre_exec(set_limits);
+    }
+    let out = cmd.output().map_err(|e| format!("spawn: {e}"))?;
+    if !out.status.success() {
+        return Err(format!("aux process died: {:?}", out.status));
+    }
+    let text = String::from_utf8_lossy(&out.stdout).to_string();
+    for l in text.lines() {
+        if let Some(r) = l.strip_prefix("A\t") {
+            return Ok(r.to_string());
+        }
+    }
+    Err("aux process printed no result".into())
+}
+
 // ------------------------------------------------------------------------------------------------
 // Controller side
 // ------------------------------------------------------------------------------------------------
